@@ -252,6 +252,15 @@ def r2(ctx):
   okw = writers.get('self._ref_count', set()) <= {'__init__', 'Open', 'Close'} and writers.get('self._open_ar', set()) <= {'__init__', 'Open', 'Close'}
   ctx.ob('C16.R2', rc, 'the reference count and the shared open result are written only by Open and Close', okw,
          'writers: %s' % dict((k, sorted(v)) for k, v in writers.items()), why)
+  # ... including the classes these two are built from or extended by: a base class that keeps a counter of its own under the same attribute name counts
+  # in-flight requests as holders
+  for cl in (rc, prog.cls(SP, 'SingletonPoolSink')):
+    fam = [k for k in prog.mro(cl) if k is not cl] + prog.subclasses(cl, strict=True)
+    foreign = sorted(set('%s.%s' % (k.name, m_.name) for k in fam for m_ in k.methods.values() for st in ast.walk(m_.node)
+                         if isinstance(st, ast.Attribute) and isinstance(st.ctx, (ast.Store, ast.Del)) and U(st) == 'self._ref_count'))
+    ctx.ob('C16.R2', cl, 'no base or derived class of %s writes its holder count' % cl.name, not foreign, 'self._ref_count is also written by %s' % foreign,
+           'the count decides when the shared connection is opened and closed: extra increments (one per request in flight) keep it open after the last holder closed, '
+           'extra decrements close it under a holder')
   of = prog.func(SK, 'RefCountedSink.on_faulted')
   ctx.ob('C16.R2', of, 'fault signal delegates to the underlying sink', U(of.node.body[-1]).replace(' ', '') == 'returnself.next_sink.on_faulted', 'on_faulted changed',
          'holders must see faults of the shared connection', nontrivial=False)
